@@ -113,3 +113,4 @@ VP('C14', 'C14-e1', 'C14.L', 'memo-keys')
 VP('C14', 'C14-e2', 'C14.R8', 'param=links_props')
 VP('C14', 'C14-e3', 'C14.R8', 'element_names.append')
 VP('C14', 'C14-f3', 'C14.R9', 'element-presence-conditions')
+VP('C14', 'C14-f2', 'C14.R10', 'element-described-as-declared')
